@@ -326,7 +326,7 @@ func main() {
 					cx := writeCex(path, *prop, r, ob)
 					note := ""
 					if cx.Ghost {
-						note = " replay=none(ghost-parametrised obligation over contracts: the refuted polynomial identity or bound is the finding)"
+						note = " replay=none(obligation over ghost parameters / uninterpreted symbols: the solver model of the abstract obligation is the finding; no native input exists for it)"
 					} else if replayedRun[r] {
 						note = " replay=not-repeated(an earlier counterexample of this harness run was already reproduced natively)"
 					} else if !*noReplay {
